@@ -8,13 +8,6 @@ Local Open Scope N_scope.
 (* ------------------------------------------------------------------ *)
 (* small list / bytes facts *)
 
-Lemma beq_spec a b : beq a b = true <-> a = b.
-Proof.
-  revert b. induction a as [|x a IH]; intros [|y b]; cbn; split; try discriminate; auto.
-  - intros H. apply andb_true_iff in H. destruct H as [H1 H2]. apply N.eqb_eq in H1.
-    apply IH in H2. subst. reflexivity.
-  - intros H. inversion H; subst. rewrite N.eqb_refl. apply IH. reflexivity.
-Qed.
 
 Lemma firstn_app_len {A} (a b : list A) n : length a = n -> firstn n (a ++ b) = a.
 Proof.
@@ -26,11 +19,7 @@ Proof.
   intros <-. rewrite skipn_app, Nat.sub_diag, skipn_all, skipn_O. reflexivity.
 Qed.
 
-Lemma wf_firstn n b : wf_bytes b -> wf_bytes (firstn n b).
-Proof. intros H. rewrite <- (firstn_skipn n b) in H. apply wf_app in H. tauto. Qed.
 
-Lemma wf_skipn n b : wf_bytes b -> wf_bytes (skipn n b).
-Proof. intros H. rewrite <- (firstn_skipn n b) in H. apply wf_app in H. tauto. Qed.
 
 Lemma filter_all {A} (f : A -> bool) l : forallb f l = true -> filter f l = l.
 Proof.
@@ -210,6 +199,171 @@ Proof.
   rewrite N.mod_mod by assumption. reflexivity.
 Qed.
 
+
+(* ------------------------------------------------------------------ *)
+(* LocalNoncesData: sorting the entries by txid *)
+
+Lemma lex_leb_total a : forall b, lex_leb a b = false -> lex_leb b a = true.
+Proof.
+  induction a as [|x a IH]; intros [|y b]; cbn [lex_leb]; try discriminate; auto.
+  destruct (x <? y) eqn:E1; [discriminate|]. destruct (y <? x) eqn:E2; [reflexivity|].
+  apply IH.
+Qed.
+
+Lemma key_leb_total x y : key_leb x y = false -> key_leb y x = true.
+Proof. apply lex_leb_total. Qed.
+
+Fixpoint sorted_e (l : list bytes) : bool :=
+  match l with
+  | [] => true
+  | x :: l' => match l' with [] => true | y :: _ => key_leb x y && sorted_e l' end
+  end.
+
+Lemma insert_sorted x l : sorted_e l = true -> sorted_e (insert_e x l) = true.
+Proof.
+  induction l as [|y l IH]; [reflexivity|]. intros Hs. cbn [insert_e].
+  destruct (key_leb x y) eqn:E.
+  - change (key_leb x y && sorted_e (y :: l) = true). rewrite E, Hs. reflexivity.
+  - apply key_leb_total in E. destruct l as [|z l].
+    + cbn [insert_e sorted_e]. rewrite E. reflexivity.
+    + cbn [sorted_e] in Hs. apply andb_true_iff in Hs. destruct Hs as [H1 H2].
+      specialize (IH H2). cbn [insert_e] in *. destruct (key_leb x z).
+      * change (key_leb y x && sorted_e (x :: z :: l) = true). rewrite E, IH. reflexivity.
+      * change (key_leb y z && sorted_e (z :: insert_e x l) = true). rewrite H1, IH. reflexivity.
+Qed.
+
+Lemma isort_sorted l : sorted_e (isort_e l) = true.
+Proof. induction l as [|x l IH]; [reflexivity|]. cbn [isort_e]. apply insert_sorted. exact IH. Qed.
+
+Lemma isort_id l : sorted_e l = true -> isort_e l = l.
+Proof.
+  induction l as [|x l IH]; [reflexivity|]. intros Hs. cbn [isort_e].
+  destruct l as [|y l]; [reflexivity|]. cbn [sorted_e] in Hs. apply andb_true_iff in Hs.
+  destruct Hs as [H1 H2]. rewrite (IH H2). cbn [insert_e]. rewrite H1. reflexivity.
+Qed.
+
+Lemma isort_idem l : isort_e (isort_e l) = isort_e l.
+Proof. apply isort_id. apply isort_sorted. Qed.
+
+Lemma insert_forallb f x l : forallb f (insert_e x l) = f x && forallb f l.
+Proof.
+  induction l as [|y l IH]; [reflexivity|]. cbn [insert_e]. destruct (key_leb x y); [reflexivity|].
+  cbn [forallb]. rewrite IH. destruct (f x), (f y); reflexivity.
+Qed.
+
+Lemma isort_forallb f l : forallb f (isort_e l) = forallb f l.
+Proof. induction l as [|x l IH]; [reflexivity|]. cbn [isort_e forallb]. rewrite insert_forallb, IH. reflexivity. Qed.
+
+Lemma insert_existsb f x l : existsb f (insert_e x l) = f x || existsb f l.
+Proof.
+  induction l as [|y l IH]; [reflexivity|]. cbn [insert_e]. destruct (key_leb x y); [reflexivity|].
+  cbn [existsb]. rewrite IH. destruct (f x), (f y); reflexivity.
+Qed.
+
+Lemma isort_existsb f l : existsb f (isort_e l) = existsb f l.
+Proof. induction l as [|x l IH]; [reflexivity|]. cbn [isort_e existsb]. rewrite insert_existsb, IH. reflexivity. Qed.
+
+Lemma beq_sym a : forall b, beq a b = beq b a.
+Proof.
+  induction a as [|x a IH]; intros [|y b]; cbn [beq]; try reflexivity.
+  rewrite IH, N.eqb_sym. reflexivity.
+Qed.
+
+Lemma same_key_sym x y : same_key x y = same_key y x.
+Proof. apply beq_sym. Qed.
+
+Lemma insert_distinct x l :
+  keys_distinct (insert_e x l) = negb (existsb (same_key x) l) && keys_distinct l.
+Proof.
+  induction l as [|y l IH]; [reflexivity|]. cbn [insert_e]. destruct (key_leb x y); [reflexivity|].
+  cbn [keys_distinct existsb]. rewrite insert_existsb, IH, (same_key_sym y x).
+  destruct (same_key x y), (existsb (same_key x) l), (existsb (same_key y) l), (keys_distinct l);
+    reflexivity.
+Qed.
+
+Lemma isort_distinct l : keys_distinct (isort_e l) = keys_distinct l.
+Proof.
+  induction l as [|x l IH]; [reflexivity|]. cbn [isort_e keys_distinct].
+  rewrite insert_distinct, isort_existsb, IH. reflexivity.
+Qed.
+
+Lemma insert_length x l : length (insert_e x l) = S (length l).
+Proof.
+  induction l as [|y l IH]; [reflexivity|]. cbn [insert_e]. destruct (key_leb x y); cbn [length]; auto.
+Qed.
+
+Lemma isort_length l : length (isort_e l) = length l.
+Proof. induction l as [|x l IH]; [reflexivity|]. cbn [isort_e length]. rewrite insert_length, IH. reflexivity. Qed.
+
+Lemma entries_length k n : forall b, length (entries k n b) = k.
+Proof. induction k as [|k IH]; intros b; [reflexivity|]. cbn [entries length]. rewrite IH. reflexivity. Qed.
+
+Lemma entries_all_len k n : forall b, (k * n <= length b)%nat ->
+  forallb (fun e => Nat.eqb (length e) n) (entries k n b) = true.
+Proof.
+  induction k as [|k IH]; intros b Hb; [reflexivity|]. cbn [entries forallb].
+  rewrite firstn_length_le by lia. rewrite Nat.eqb_refl. apply IH. rewrite skipn_length. lia.
+Qed.
+
+Lemma entries_wf k n : forall b, wf_bytes b -> forallb wf_bytesb (entries k n b) = true.
+Proof.
+  induction k as [|k IH]; intros b Hb; [reflexivity|]. cbn [entries forallb].
+  rewrite (proj2 (wf_bytesb_spec _) (wf_firstn n b Hb)). apply IH. apply wf_skipn. exact Hb.
+Qed.
+
+Lemma concat_wf l : forallb wf_bytesb l = true -> wf_bytes (concat l).
+Proof.
+  induction l as [|x l IH]; intros H; [constructor|]. cbn [forallb] in H. apply andb_true_iff in H.
+  destruct H as [H1 H2]. cbn [concat]. apply wf_app. split; [apply wf_bytesb_spec; exact H1|auto].
+Qed.
+
+Lemma concat_len n (l : list bytes) : forallb (fun e => Nat.eqb (length e) n) l = true ->
+  length (concat l) = (length l * n)%nat.
+Proof.
+  induction l as [|x l IH]; intros H; [reflexivity|]. cbn [forallb] in H. apply andb_true_iff in H.
+  destruct H as [H1 H2]. apply Nat.eqb_eq in H1. cbn [concat length]. rewrite app_length, IH by exact H2. lia.
+Qed.
+
+Lemma entries_concat n (l : list bytes) : forallb (fun e => Nat.eqb (length e) n) l = true ->
+  entries (length l) n (concat l) = l.
+Proof.
+  induction l as [|x l IH]; intros H; [reflexivity|]. cbn [forallb] in H. apply andb_true_iff in H.
+  destruct H as [H1 H2]. apply Nat.eqb_eq in H1. cbn [length entries concat].
+  rewrite (firstn_app_len _ _ n H1), (skipn_app_len _ _ n H1), IH by exact H2. reflexivity.
+Qed.
+
+Lemma nonce_norm_props oc v : wf_bytes v ->
+  wf_bytes (nonce_norm v) /\ (length (nonce_norm v) <= length v)%nat /\
+  nonce_norm (nonce_norm v) = nonce_norm v /\
+  nonce_check oc (nonce_norm v) = nonce_check oc v.
+Proof.
+  intros Hw.
+  destruct (Nat.eqb (Nat.modulo (length v) nonce_entry_len) 0) eqn:Em.
+  2:{ assert (Hid : nonce_norm v = v) by (unfold nonce_norm; rewrite Em; reflexivity).
+      rewrite !Hid. repeat split; auto. }
+  assert (Hn : nonce_entry_len <> 0%nat) by discriminate.
+  set (n := nonce_entry_len) in *. set (k := Nat.div (length v) n).
+  assert (Hk : (k * n <= length v)%nat).
+  { unfold k. rewrite Nat.mul_comm. apply Nat.mul_div_le. exact Hn. }
+  set (es := entries k n v). set (S := isort_e es).
+  assert (Hnv : nonce_norm v = concat S).
+  { unfold nonce_norm, nonce_entries. fold n. rewrite Em. reflexivity. }
+  assert (Hlen : forallb (fun e => Nat.eqb (length e) n) S = true).
+  { unfold S. rewrite isort_forallb. apply entries_all_len. exact Hk. }
+  assert (HS : length S = k) by (unfold S, es; rewrite isort_length, entries_length; reflexivity).
+  pose proof (concat_len n S Hlen) as Hcl. rewrite HS in Hcl.
+  assert (Hmod : Nat.modulo (length (concat S)) n = 0%nat) by (rewrite Hcl; apply Nat.mod_mul; exact Hn).
+  assert (Hdiv : Nat.div (length (concat S)) n = k) by (rewrite Hcl; apply Nat.div_mul; exact Hn).
+  assert (Hent : entries k n (concat S) = S) by (rewrite <- HS; apply entries_concat; exact Hlen).
+  rewrite Hnv. split; [|split; [|split]].
+  - apply concat_wf. unfold S. rewrite isort_forallb. apply entries_wf. exact Hw.
+  - lia.
+  - unfold nonce_norm, nonce_entries. fold n. rewrite Hmod, Hdiv, Hent. cbn [Nat.eqb].
+    unfold S. rewrite isort_idem. reflexivity.
+  - unfold nonce_check, nonce_entries. fold n. fold k. fold es. rewrite Hmod, Hdiv, Hent, Em.
+    unfold S. rewrite isort_forallb, isort_distinct. reflexivity.
+Qed.
+
 Section RK.
   Variable oc : bytes -> bool.
 
@@ -241,6 +395,8 @@ Section RK.
       + rewrite (firstn_app_len _ _ 32%nat (modn32_len _)), (skipn_app_len _ _ 32%nat (modn32_len _)).
         rewrite modn32_idem. reflexivity.
       + rewrite (skipn_app_len _ _ 32%nat (modn32_len _)). reflexivity.
+    - (* RKNonceMap *)
+      destruct (nonce_norm_props oc v Hw) as (H1 & H2 & H3 & H4). repeat split; auto.
   Qed.
 End RK.
 
@@ -279,6 +435,23 @@ Proof.
   rewrite enc_record_cons in H. apply wf_app in H. destruct H as [_ H].
   apply wf_app in H. destruct H as [_ H]. apply wf_app in H. destruct H as [Hv H].
   constructor; [exact Hv|apply IH; exact H].
+Qed.
+
+Lemma has_any_filter A (f : tlv_record -> bool) rs :
+  has_any A (filter f rs) = true -> has_any A rs = true.
+Proof.
+  unfold has_any. intros H. apply existsb_exists in H. destruct H as (r & Hin & Hr).
+  apply filter_In in Hin. apply existsb_exists. exists r. tauto.
+Qed.
+
+Lemma excl_ok_filter X (f : tlv_record -> bool) rs :
+  excl_ok X rs = true -> excl_ok X (filter f rs) = true.
+Proof.
+  unfold excl_ok. intros H. apply forallb_forall. intros [A B] Hin.
+  rewrite forallb_forall in H. specialize (H _ Hin). cbn [fst snd] in *.
+  apply negb_true_iff in H. apply negb_true_iff. apply andb_false_iff in H.
+  apply andb_false_iff. destruct H as [H|H]; [left|right];
+    (destruct (has_any _ (filter f rs)) eqn:E; [apply has_any_filter in E; congruence|reflexivity]).
 Qed.
 
 Section Msg.
@@ -430,12 +603,13 @@ Section Msg.
     destruct (cond_valid _ _ _ _ Hw1 E2) as (Hvc & Hw2 & _).
     destruct (decode_stream K true r2) as [rs|] eqn:E3; [|discriminate].
     destruct (forallb (rec_check oc ks) rs) eqn:E4; [|discriminate].
+    cbv zeta. fold (post rs). destruct (excl_ok (tm_excl M) (post rs)) eqn:E5; [|discriminate].
     intros H; inversion H; subst v. clear H.
     destruct (stream_facts _ _ Hw2 E3) as (_ & Hs & Hf & Hwr).
     destruct (post_valid rs Hs Hf Hwr E4) as (P1 & P2 & P3).
     rewrite dec_rest_is in E1.
     destruct (decode_rest_valid oc _ _ _ _ Hw E1) as (Hv & _).
-    unfold valid_tv. fold (post rs). rewrite Hv, Hvc, P1, P2, P3. reflexivity.
+    unfold valid_tv. rewrite Hv, Hvc, P1, P2, P3, E5. reflexivity.
   Qed.
 
   (* Lemma C: a complete valid value round-trips *)
@@ -444,6 +618,7 @@ Section Msg.
     exists e, encode_tm M v = Some e /\ decode_tm oc M e = Some v.
   Proof.
     destruct v as [[vs cs] rs]. unfold valid_tv, complete_tv. intros Hv Hc.
+    apply andb_true_iff in Hv. destruct Hv as [Hv V6].
     apply andb_true_iff in Hv. destruct Hv as [Hv V5].
     apply andb_true_iff in Hv. destruct Hv as [Hv V4].
     apply andb_true_iff in Hv. destruct Hv as [Hv V3].
@@ -482,7 +657,7 @@ Section Msg.
     assert (Hmap : map (rec_norm ks) rs = rs).
     { rewrite <- (map_id rs) at 2. apply map_ext_in. intros r Hin.
       rewrite Forall_forall in Hall. apply Hall. assumption. }
-    rewrite Hmap, ensure_all_id by assumption. reflexivity.
+    cbv zeta. rewrite Hmap, ensure_all_id by assumption. rewrite V6. reflexivity.
   Qed.
 
   (* Lemma B: dropping what Encode does not write keeps the value valid *)
@@ -492,11 +667,13 @@ Section Msg.
   Proof.
     unfold valid_tv, complete_tv, out_recs. destruct (tm_mode M); [|tauto].
     intros Hv.
+    apply andb_true_iff in Hv. destruct Hv as [Hv V6].
     apply andb_true_iff in Hv. destruct Hv as [Hv V5].
     apply andb_true_iff in Hv. destruct Hv as [Hv V4].
     apply andb_true_iff in Hv. destruct Hv as [Hv V3].
     rewrite Hv. split; [|apply forallb_filter].
-    cbn [andb]. apply andb_true_iff. split; [apply andb_true_iff; split|].
+    cbn [andb]. apply andb_true_iff. split; [apply andb_true_iff; split; [apply andb_true_iff; split|]|].
+    4:{ apply excl_ok_filter. assumption. }
     - apply sorted_fromb_spec. apply sorted_filter. apply sorted_fromb_spec. assumption.
     - apply forallb_filter_sub. assumption.
     - apply forallb_forall. intros t Hin. rewrite forallb_forall in V5. specialize (V5 t Hin).
@@ -538,16 +715,115 @@ Proof.
 Qed.
 
 (* ------------------------------------------------------------------ *)
+(* messages with an optional tail *)
+
+Lemma enc_f_nonempty k L v a :
+  starts_nonempty (k :: L) = true -> enc_f k v = Some a -> (1 <= length a)%nat.
+Proof.
+  destruct k as [[|n]|[|n]| | | | | | | | | | |]; try discriminate; intros _; destruct v as [x|b];
+    cbn [enc_f]; try discriminate.
+  - intros H. injection H as <-. rewrite app_length. cbn [length]. lia.
+  - destruct (Nat.eqb (length b) (S n)) eqn:E; [|discriminate]. apply Nat.eqb_eq in E.
+    intros H. injection H as <-. lia.
+  - destruct (Nat.eqb (length b) 33) eqn:E; [|discriminate]. apply Nat.eqb_eq in E.
+    intros H. injection H as <-. lia.
+Qed.
+
+Section Opt.
+  Variable oc : bytes -> bool.
+  Variable W : optmsg.
+  Hypothesis Hok : om_ok W = true.
+
+  Notation M := (om_tail W).
+
+  Lemma om_pre_ok : nonterminal (om_pre W) = true.
+  Proof.
+    unfold om_ok in Hok. apply andb_true_iff in Hok. destruct Hok as [H _].
+    apply andb_true_iff in H. tauto.
+  Qed.
+
+  Lemma om_tail_ok : tm_ok M = true.
+  Proof.
+    unfold om_ok in Hok. apply andb_true_iff in Hok. destruct Hok as [H _].
+    apply andb_true_iff in H. tauto.
+  Qed.
+
+  Lemma om_starts : starts_nonempty (tm_pre M) = true.
+  Proof. unfold om_ok in Hok. apply andb_true_iff in Hok. tauto. Qed.
+
+  Lemma tail_nonempty tv e : encode_tm M tv = Some e -> e <> [].
+  Proof.
+    destruct tv as [[ts cs] rs]. unfold encode_tm. pose proof om_starts as Hs.
+    destruct (tm_pre M) as [|k L] eqn:EL; [discriminate|].
+    destruct ts as [|v ts]; cbn [encode]; [discriminate|].
+    destruct (enc_f k v) as [a|] eqn:Ea; [|discriminate].
+    pose proof (enc_f_nonempty k L v a Hs Ea) as Hl.
+    destruct (encode L ts) as [b1|]; [|discriminate].
+    destruct (encode_cond M (v :: ts) cs) as [e2|]; [|discriminate].
+    intros H; inversion H; subst. destruct a; [cbn in Hl; lia|discriminate].
+  Qed.
+
+  Theorem om_roundtrip v :
+    valid_ov oc W v = true -> complete_ov W v = true ->
+    exists e, encode_om W v = Some e /\ decode_om oc W e = Some v.
+  Proof.
+    destruct v as [vs tvo]. unfold valid_ov, complete_ov, encode_om, decode_om. cbn [fst snd].
+    intros Hv Hc. apply andb_true_iff in Hv. destruct Hv as [V1 V2].
+    pose proof om_pre_ok as Hn.
+    destruct (layout_roundtrip_rest oc _ (nonterm_lay_ok _ Hn) vs V1) as (e1 & He1 & Hd1 & Hr1).
+    specialize (Hr1 Hn). rewrite He1. destruct tvo as [tv|].
+    - destruct (roundtrip oc M om_tail_ok tv V2 Hc) as (e2 & He2 & Hd2). rewrite He2.
+      exists (e1 ++ e2). split; [reflexivity|]. rewrite dec_rest_is, Hr1.
+      pose proof (tail_nonempty tv e2 He2) as Hne. destruct e2 as [|x e2]; [contradiction|].
+      rewrite Hd2. reflexivity.
+    - exists e1. split; [reflexivity|]. rewrite dec_rest_is, Hd1. reflexivity.
+  Qed.
+
+  Lemma encode_om_out v : encode_om W (out_ov W v) = encode_om W v.
+  Proof.
+    destruct v as [vs [[[ts cs] rs]|]]; unfold encode_om, out_ov; cbn [fst snd option_map out_tv];
+      [|reflexivity].
+    rewrite (encode_out M). reflexivity.
+  Qed.
+
+  Theorem om_fixpoint b v :
+    wf_bytes b -> decode_om oc W b = Some v ->
+    valid_ov oc W v = true /\
+    exists e, encode_om W v = Some e /\ decode_om oc W e = Some (out_ov W v) /\
+              encode_om W (out_ov W v) = Some e.
+  Proof.
+    intros Hw. unfold decode_om.
+    destruct (dec_rest oc (om_pre W) b) as [[vs r]|] eqn:E1; [|discriminate].
+    pose proof (dec_rest_wf _ _ _ _ _ Hw E1) as Hwr. rewrite dec_rest_is in E1.
+    destruct (decode_rest_valid oc _ _ _ _ Hw E1) as (V1 & _).
+    assert (Hgo : forall v', v' = out_ov W v -> valid_ov oc W v' = true -> complete_ov W v' = true ->
+                  exists e, encode_om W v = Some e /\ decode_om oc W e = Some v' /\
+                            encode_om W v' = Some e).
+    { intros v' -> Hv' Hc'. destruct (om_roundtrip _ Hv' Hc') as (e & He & Hd).
+      exists e. rewrite <- encode_om_out. auto. }
+    destruct r as [|x r].
+    - intros H; inversion H; subst v. clear H.
+      assert (Hv : valid_ov oc W (vs, None) = true) by (unfold valid_ov; cbn [fst snd]; rewrite V1; reflexivity).
+      split; [exact Hv|]. apply Hgo; auto.
+    - destruct (decode_tm oc M (x :: r)) as [tv|] eqn:E2; [|discriminate].
+      intros H; inversion H; subst v. clear H.
+      pose proof (decode_valid oc M om_tail_ok _ _ Hwr E2) as V2.
+      assert (Hv : valid_ov oc W (vs, Some tv) = true) by (unfold valid_ov; cbn [fst snd]; rewrite V1, V2; reflexivity).
+      split; [exact Hv|]. destruct tv as [[ts cs] rs].
+      destruct (out_valid oc M om_tail_ok _ _ _ V2) as [V2' C2'].
+      apply Hgo; [reflexivity| |].
+      + unfold valid_ov, out_ov. cbn [fst snd option_map out_tv]. rewrite V1, V2'. reflexivity.
+      + unfold complete_ov, out_ov. cbn [fst snd option_map out_tv]. exact C2'.
+  Qed.
+End Opt.
+
+(* ------------------------------------------------------------------ *)
 (* onion failure packets *)
 
-Lemma failure_roundtrip oc F code L vs p :
-  lookup_layout F code = Some L -> lay_ok L = true -> code < 65536 ->
-  valid_vs oc L vs = true -> encode_failure F code vs = Some p ->
-  decode_failure oc F p = Some (code, vs) /\ blen p = 260.
+Lemma unframe_frame m p :
+  frame_failure m = Some p -> unframe_failure p = Some m /\ blen p = 260.
 Proof.
-  intros HL Hok Hc Hv. unfold encode_failure.
-  destruct (write_message F code vs) as [m|] eqn:Em; [|discriminate].
-  pose proof (message_roundtrip oc F code L vs m HL Hok Hc Hv Em) as Hr.
+  unfold frame_failure.
   destruct (N.ltb_spec failure_len (blen m)) as [|Hle]; [discriminate|].
   intros H.
   assert (Hp : p = be_enc 2 (blen m) ++ m ++ be_enc 2 (failure_len - blen m) ++
@@ -557,16 +833,109 @@ Proof.
   assert (Hz : blen (repeat 0 (N.to_nat pad)) = pad).
   { unfold blen. rewrite repeat_length. lia. }
   split.
-  - unfold decode_failure. rewrite read_be_app, pow2, N.mod_small by lia. cbv beta iota.
+  - unfold unframe_failure. rewrite read_be_app, pow2, N.mod_small by lia. cbv beta iota.
     rewrite take_app. cbv beta iota.
     rewrite read_be_app, pow2, N.mod_small by (unfold pad; lia). cbv beta iota.
     rewrite <- (app_nil_r (repeat 0 (N.to_nat pad))). rewrite <- Hz at 1. rewrite take_app.
     cbv beta iota.
     unfold failure_len. destruct (N.ltb_spec (blen m + pad) 256); [unfold pad in *; lia|].
-    exact Hr.
+    reflexivity.
   - assert (Hb : forall x, blen (be_enc 2 x) = 2)
       by (intros; unfold blen; rewrite be_enc_length; reflexivity).
     rewrite !blen_app, Hz, !Hb. unfold pad. lia.
+Qed.
+
+Lemma failure_roundtrip oc F code L vs p :
+  lookup_layout F code = Some L -> lay_ok L = true -> code < 65536 ->
+  valid_vs oc L vs = true -> encode_failure F code vs = Some p ->
+  decode_failure oc F p = Some (code, vs) /\ blen p = 260.
+Proof.
+  intros HL Hok Hc Hv. unfold encode_failure.
+  destruct (write_message F code vs) as [m|] eqn:Em; [|discriminate].
+  pose proof (message_roundtrip oc F code L vs m HL Hok Hc Hv Em) as Hr.
+  intros H. destruct (unframe_frame _ _ H) as [Hu Hl]. split; [|exact Hl].
+  unfold decode_failure. rewrite Hu. exact Hr.
+Qed.
+
+(* failure payloads embedding a channel_update *)
+Lemma uf_roundtrip oc U F v p :
+  tm_ok U = true -> nonterminal (uf_pre F) = true ->
+  valid_fd oc U (FDUpd F) v = true -> encode_uf U F v = Some p ->
+  decode_uf oc U F p = Some v.
+Proof.
+  intros HU Hn. destruct v as [vs tvo]. unfold valid_fd, encode_uf, decode_uf. cbn [fst snd].
+  intros Hv. apply andb_true_iff in Hv. destruct Hv as [V1 V2].
+  destruct (layout_roundtrip_rest oc _ (nonterm_lay_ok _ Hn) vs V1) as (e1 & He1 & _ & Hr1).
+  specialize (Hr1 Hn). rewrite He1. destruct tvo as [tv|].
+  - apply andb_true_iff in V2. destruct V2 as [V2 C2].
+    destruct (roundtrip oc U HU tv V2 C2) as (e2 & He2 & Hd2). rewrite He2.
+    destruct (N.ltb_spec max_msg_body (blen e2)) as [|Hle]; [discriminate|].
+    intros H.
+    assert (Hp : p = e1 ++ be_enc 2 (blen e2 + 2) ++ [1; 2] ++ e2) by congruence.
+    subst p. clear H. rewrite dec_rest_is, Hr1. unfold max_msg_body in Hle.
+    rewrite read_be_app, pow2, N.mod_small by lia.
+    assert (Hz : (blen e2 + 2 =? 0) = false) by (apply N.eqb_neq; lia).
+    rewrite Hz, andb_false_r.
+    assert (Hf : firstn (N.to_nat (blen e2 + 2)) ([1; 2] ++ e2) = 1 :: 2 :: e2).
+    { change ([1; 2] ++ e2) with (1 :: 2 :: e2). rewrite firstn_all2; [reflexivity|].
+      unfold blen. cbn [length]. lia. }
+    rewrite Hf. cbn [N.mul N.add N.eqb Pos.mul Pos.add Pos.eqb]. rewrite Hd2. reflexivity.
+  - rewrite V2. intros H.
+    assert (Hp : p = e1 ++ [0; 0]) by congruence. subst p. clear H. rewrite dec_rest_is, Hr1.
+    change (read_be 2 [0; 0]) with (Some (0, @nil N)). reflexivity.
+Qed.
+
+Lemma eof_roundtrip oc L : eof_ok L = true -> forall vs p,
+  valid_vs oc L vs = true -> encode L vs = Some p -> decode_eof oc L p = Some vs.
+Proof.
+  induction L as [|k L IH]; intros Hok vs p Hv He.
+  - destruct vs; [|discriminate]. reflexivity.
+  - destruct vs as [|v vs]; [discriminate|]. cbn [valid_vs] in Hv. apply andb_true_iff in Hv.
+    destruct Hv as [Hvk Hvs]. cbn [encode] in He.
+    destruct (enc_f k v) as [a|] eqn:Ea; [|discriminate].
+    destruct (encode L vs) as [q|] eqn:Eq; [|discriminate]. injection He as <-.
+    destruct k as [[|n]| | | | | | | | | | | |]; try discriminate.
+    + (* FU (S n) *)
+      assert (HokL : eof_ok L = true) by exact Hok.
+      destruct (field_roundtrip oc _ _ Hvk eq_refl) as (a' & Ha' & Hd). rewrite Ea in Ha'.
+      injection Ha' as <-.
+      assert (Hne : (1 <= length a)%nat) by (eapply (enc_f_nonempty (FU (S n)) []); [reflexivity|exact Ea]).
+      cbn [decode_eof]. destruct a as [|x a]; [cbn in Hne; lia|]. cbn [app].
+      change (x :: a ++ q) with ((x :: a) ++ q). rewrite Hd, (IH HokL vs q Hvs Eq). reflexivity.
+    + (* [FRest] *)
+      destruct L as [|? ?]; [|discriminate]. destruct vs; [|discriminate].
+      destruct v as [x|b]; [discriminate|]. cbn [enc_f] in Ea. injection Ea as <-.
+      cbn [encode] in Eq. injection Eq as <-. rewrite app_nil_r. cbn [decode_eof].
+      destruct b; reflexivity.
+Qed.
+
+Lemma fd_roundtrip oc U D v p :
+  tm_ok U = true -> fd_ok D = true -> valid_fd oc U D v = true ->
+  encode_fd U D v = Some p -> decode_fd oc U D p = Some v.
+Proof.
+  intros HU Hok. destruct D as [L|F|L]; cbn [fd_ok] in Hok.
+  - destruct v as [vs [tv|]]; unfold valid_fd, encode_fd, decode_fd; cbn [fst snd].
+    + rewrite andb_false_r. discriminate.
+    + rewrite andb_true_r. intros Hv He.
+      destruct (layout_roundtrip oc L vs Hok Hv) as (b & Hb & Hd). rewrite He in Hb.
+      injection Hb as <-. rewrite Hd. reflexivity.
+  - apply uf_roundtrip; assumption.
+  - destruct v as [vs [tv|]]; unfold valid_fd, encode_fd, decode_fd; cbn [fst snd].
+    + rewrite andb_false_r. discriminate.
+    + rewrite andb_true_r. intros Hv He. rewrite (eof_roundtrip oc L Hok vs p Hv He). reflexivity.
+Qed.
+
+Theorem failure_g_roundtrip oc U T code D v p :
+  tm_ok U = true -> lookup_fd T code = Some D -> fd_ok D = true -> code < 65536 ->
+  valid_fd oc U D v = true -> encode_failure_g U T code v = Some p ->
+  decode_failure_g oc U T p = Some (code, v) /\ blen p = 260.
+Proof.
+  intros HU HD Hok Hc Hv. unfold encode_failure_g, write_fmessage. rewrite HD.
+  destruct (encode_fd U D v) as [q|] eqn:Eq; [|discriminate].
+  intros H. destruct (unframe_frame _ _ H) as [Hu Hl]. split; [|exact Hl].
+  unfold decode_failure_g. rewrite Hu. unfold read_fmessage.
+  rewrite read_be_app, pow2, N.mod_small by assumption. rewrite HD.
+  rewrite (fd_roundtrip oc U D v q HU Hok Hv Eq). reflexivity.
 Qed.
 
 (* ------------------------------------------------------------------ *)
